@@ -655,6 +655,349 @@ func fnCond(e ast.Expr, fnVar string) (int, string, bool) {
 	return 0, "", false
 }
 
+
+// ---------- loop-body structure ----------
+
+// frule: a rule about found-flags: kind "nil" (if !flag { iterators = nil }), "error" (if !flag { return
+// error }), "use" (if f1 && f2 ... { call / assign }).  Flags and iterators are named by the dispatch arm
+// (message variable, field number) that sets / fills them, so local names do not matter.
+type armRef struct {
+	scope string
+	num   int
+}
+type frule struct {
+	kind  string
+	flags []armRef
+	nils  []armRef
+	info  []string
+}
+
+func (fi *fileInfo) foundRules(fd *ast.FuncDecl) []frule {
+	flagArm := map[string]armRef{}
+	iterArm := map[string]armRef{}
+	var visitSwitch func(n ast.Node)
+	visitSwitch = func(n ast.Node) {
+		ast.Inspect(n, func(m ast.Node) bool {
+			sw, ok := m.(*ast.SwitchStmt)
+			if !ok || sw.Tag == nil {
+				return true
+			}
+			mv := fieldNumberRecv(sw.Tag)
+			if mv == "" {
+				return true
+			}
+			for _, st := range sw.Body.List {
+				cc := st.(*ast.CaseClause)
+				if len(cc.List) != 1 {
+					continue
+				}
+				bl, ok := cc.List[0].(*ast.BasicLit)
+				if !ok {
+					continue
+				}
+				num, _ := strconv.Atoi(bl.Value)
+				for _, b := range cc.Body {
+					// direct statements of the clause only (nested switches are visited on their own)
+					as, ok := b.(*ast.AssignStmt)
+					if !ok {
+						continue
+					}
+					if len(as.Lhs) == 1 && len(as.Rhs) == 1 {
+						if id, ok := as.Lhs[0].(*ast.Ident); ok {
+							if v, ok := as.Rhs[0].(*ast.Ident); ok && v.Name == "true" {
+								flagArm[id.Name] = armRef{mv, num}
+							}
+						}
+					}
+					if len(as.Rhs) == 1 {
+						if r, mth, ok := isAccessorCall(as.Rhs[0]); ok && r == mv && mth == "Iterator" {
+							iterArm[render(as.Lhs[0])] = armRef{mv, num}
+						}
+					}
+				}
+			}
+			return true
+		})
+	}
+	visitSwitch(fd.Body)
+	var rules []frule
+	var flagsOf func(e ast.Expr, neg bool) ([]armRef, bool)
+	flagsOf = func(e ast.Expr, neg bool) ([]armRef, bool) {
+		switch x := e.(type) {
+		case *ast.ParenExpr:
+			return flagsOf(x.X, neg)
+		case *ast.UnaryExpr:
+			if x.Op == token.NOT && neg {
+				if id, ok := x.X.(*ast.Ident); ok {
+					if a, ok := flagArm[id.Name]; ok {
+						return []armRef{a}, true
+					}
+				}
+			}
+		case *ast.Ident:
+			if !neg {
+				if a, ok := flagArm[x.Name]; ok {
+					return []armRef{a}, true
+				}
+			}
+		case *ast.BinaryExpr:
+			if x.Op == token.LAND && !neg {
+				l, ok1 := flagsOf(x.X, false)
+				r, ok2 := flagsOf(x.Y, false)
+				if ok1 && ok2 {
+					return append(l, r...), true
+				}
+			}
+		}
+		return nil, false
+	}
+	vt := varTypes(fd)
+	recv := recvName(fd)
+	ast.Inspect(fd.Body, func(n ast.Node) bool {
+		is, ok := n.(*ast.IfStmt)
+		if !ok {
+			return true
+		}
+		if fl, ok := flagsOf(is.Cond, true); ok {
+			r := frule{kind: "nil", flags: fl}
+			for _, st := range is.Body.List {
+				switch y := st.(type) {
+				case *ast.ReturnStmt:
+					r.kind = "error"
+				case *ast.AssignStmt:
+					if len(y.Lhs) == 1 && len(y.Rhs) == 1 {
+						if v, ok := y.Rhs[0].(*ast.Ident); ok && v.Name == "nil" {
+							if a, ok := iterArm[render(y.Lhs[0])]; ok {
+								r.nils = append(r.nils, a)
+							} else {
+								r.info = append(r.info, "nil:"+render(y.Lhs[0]))
+							}
+						}
+					}
+				}
+			}
+			rules = append(rules, r)
+			return true
+		}
+		if fl, ok := flagsOf(is.Cond, false); ok {
+			r := frule{kind: "use", flags: fl}
+			ast.Inspect(is.Body, func(m ast.Node) bool {
+				switch y := m.(type) {
+				case *ast.CallExpr:
+					if id, ok := y.Fun.(*ast.Ident); ok {
+						if _, ok := fi.funcs[id.Name]; ok {
+							r.info = addUniq(r.info, "call:"+id.Name)
+						}
+					}
+				case *ast.AssignStmt:
+					for _, l := range y.Lhs {
+						if t := fi.target(l, recv, vt); t != "" {
+							r.info = addUniq(r.info, "set:"+t)
+						}
+					}
+				}
+				return true
+			})
+			rules = append(rules, r)
+		}
+		return true
+	})
+	return rules
+}
+
+// accumulation kind of the value read by accessor calls on recvText inside scope:
+// "delta:<type>" when the value is added to a running local (x += v, x = v + x), else "plain"
+func accumKind(scope ast.Node, fd *ast.FuncDecl, recvText string) string {
+	seeds := map[string]bool{}
+	ast.Inspect(scope, func(n ast.Node) bool {
+		as, ok := n.(*ast.AssignStmt)
+		if !ok || len(as.Rhs) != 1 {
+			return true
+		}
+		if r, m, ok := isAccessorCall(as.Rhs[0]); ok && r == recvText && m != "Iterator" {
+			for _, l := range as.Lhs {
+				if id, ok := l.(*ast.Ident); ok && id.Name != "err" && id.Name != "_" {
+					seeds[id.Name] = true
+				}
+			}
+		}
+		return true
+	})
+	if len(seeds) == 0 {
+		return ""
+	}
+	// declared types of locals: var a, b T
+	types := map[string]string{}
+	ast.Inspect(fd.Body, func(n ast.Node) bool {
+		if ds, ok := n.(*ast.DeclStmt); ok {
+			if gd, ok := ds.Decl.(*ast.GenDecl); ok {
+				for _, sp := range gd.Specs {
+					if vs, ok := sp.(*ast.ValueSpec); ok && vs.Type != nil {
+						for _, nm := range vs.Names {
+							types[nm.Name] = render(vs.Type)
+						}
+					}
+				}
+			}
+		}
+		return true
+	})
+	kind := "plain"
+	ast.Inspect(scope, func(n ast.Node) bool {
+		as, ok := n.(*ast.AssignStmt)
+		if !ok || len(as.Lhs) != 1 || len(as.Rhs) != 1 {
+			return true
+		}
+		id, ok := as.Lhs[0].(*ast.Ident)
+		if !ok || seeds[id.Name] {
+			return true
+		}
+		acc := false
+		if as.Tok == token.ADD_ASSIGN && mentions(as.Rhs[0], seeds) {
+			acc = true
+		}
+		if as.Tok == token.ASSIGN {
+			if be, ok := as.Rhs[0].(*ast.BinaryExpr); ok && be.Op == token.ADD && mentions(be, seeds) && mentions(be, map[string]bool{id.Name: true}) {
+				acc = true
+			}
+		}
+		if acc {
+			kind = "delta:" + types[id.Name]
+		}
+		return true
+	})
+	return kind
+}
+
+// formulas: assignments to public targets whose right-hand side contains a floating-point literal or a
+// time.* constant, rendered with locals replaced by the generated getter that defines them
+// (granularity -> GetGranularity) and every other local by "v"
+func (fi *fileInfo) formulas(fd *ast.FuncDecl) [][2]string {
+	getterOf := map[string]string{}
+	ast.Inspect(fd.Body, func(n ast.Node) bool {
+		as, ok := n.(*ast.AssignStmt)
+		if !ok || as.Tok != token.DEFINE || len(as.Lhs) != 1 || len(as.Rhs) != 1 {
+			return true
+		}
+		id, ok := as.Lhs[0].(*ast.Ident)
+		if !ok {
+			return true
+		}
+		g := ""
+		ast.Inspect(as.Rhs[0], func(m ast.Node) bool {
+			if c, ok := m.(*ast.CallExpr); ok {
+				if s, ok := c.Fun.(*ast.SelectorExpr); ok && strings.HasPrefix(s.Sel.Name, "Get") && len(c.Args) == 0 {
+					g = s.Sel.Name
+				}
+			}
+			return true
+		})
+		if g != "" {
+			getterOf[id.Name] = g
+		}
+		return true
+	})
+	vt := varTypes(fd)
+	recv := recvName(fd)
+	var out [][2]string
+	var subst func(e ast.Expr) string
+	subst = func(e ast.Expr) string {
+		switch x := e.(type) {
+		case *ast.Ident:
+			if g, ok := getterOf[x.Name]; ok {
+				return g
+			}
+			if x.Obj != nil && x.Obj.Kind == ast.Var {
+				return "v"
+			}
+			return x.Name
+		case *ast.BasicLit:
+			return x.Value
+		case *ast.ParenExpr:
+			return "(" + subst(x.X) + ")"
+		case *ast.BinaryExpr:
+			return subst(x.X) + " " + x.Op.String() + " " + subst(x.Y)
+		case *ast.CallExpr:
+			var args []string
+			for _, a := range x.Args {
+				args = append(args, subst(a))
+			}
+			return render(x.Fun) + "(" + strings.Join(args, ", ") + ")"
+		case *ast.SelectorExpr:
+			return render(x)
+		case *ast.StarExpr:
+			return "*" + subst(x.X)
+		case *ast.UnaryExpr:
+			return x.Op.String() + subst(x.X)
+		}
+		return render(e)
+	}
+	interesting := func(e ast.Expr) bool {
+		found := false
+		ast.Inspect(e, func(m ast.Node) bool {
+			switch y := m.(type) {
+			case *ast.BasicLit:
+				if y.Kind == token.FLOAT {
+					found = true
+				}
+			case *ast.SelectorExpr:
+				if id, ok := y.X.(*ast.Ident); ok && id.Name == "time" {
+					found = true
+				}
+			}
+			return !found
+		})
+		return found
+	}
+	// locals that carry an interesting value (millisec := time.Duration(...) * time.Millisecond)
+	localForm := map[string]string{}
+	ast.Inspect(fd.Body, func(n ast.Node) bool {
+		as, ok := n.(*ast.AssignStmt)
+		if !ok || len(as.Lhs) != 1 || len(as.Rhs) != 1 {
+			return true
+		}
+		if id, ok := as.Lhs[0].(*ast.Ident); ok && interesting(as.Rhs[0]) {
+			localForm[id.Name] = subst(as.Rhs[0])
+			return true
+		}
+		t := fi.target(as.Lhs[0], recv, vt)
+		if t == "" {
+			return true
+		}
+		f := ""
+		if interesting(as.Rhs[0]) {
+			f = subst(as.Rhs[0])
+		}
+		// one level of local substitution: time.Unix(0, millisec.Nanoseconds())
+		for l, lf := range localForm {
+			if mentions(as.Rhs[0], map[string]bool{l: true}) {
+				f = strings.ReplaceAll(render(as.Rhs[0]), l, "["+lf+"]")
+			}
+		}
+		if f != "" {
+			dup := false
+			for _, o := range out {
+				if o[0] == t && o[1] == f {
+					dup = true
+				}
+			}
+			if !dup {
+				out = append(out, [2]string{t, f})
+			}
+		}
+		return true
+	})
+	return out
+}
+
+func coqArmRefs(l []armRef) string {
+	q := make([]string, len(l))
+	for i, a := range l {
+		q[i] = fmt.Sprintf("(%s, %d)", tr.CoqString(a.scope), a.num)
+	}
+	return "[" + strings.Join(q, "; ") + "]"
+}
+
 func coqList(l []string) string {
 	q := make([]string, len(l))
 	for i, s := range l {
@@ -729,6 +1072,119 @@ func main() {
 	}
 	fmt.Fprintf(&b, "Definition dispatch_names : list string := %s.\n\n", coqList(names))
 
+
+	// loop-body structure: found-flag rules, accumulation kinds, value formulas
+	var fnList []string
+	for n := range fi.funcs {
+		fnList = append(fnList, n)
+	}
+	sort.Strings(fnList)
+	for _, fn := range fnList {
+		rules := fi.foundRules(fi.funcs[fn])
+		if len(rules) == 0 {
+			continue
+		}
+		fmt.Fprintf(&b, "Definition found_%s : list frule := [", fn)
+		for i, r := range rules {
+			if i > 0 {
+				b.WriteString(";")
+			}
+			fmt.Fprintf(&b, "\n  mkFR %s %s %s %s", tr.CoqString(r.kind), coqArmRefs(r.flags), coqArmRefs(r.nils), coqList(r.info))
+		}
+		b.WriteString("].\n")
+	}
+	for _, name := range names {
+		// accumulation kind per iterator arm
+		var rows []string
+		fdName := strings.SplitN(name, "_", 2)[0]
+		fd := fi.funcs[fdName]
+		mv := "msg"
+		if strings.Contains(name, "_info") {
+			mv = "info"
+		}
+		ast.Inspect(fd.Body, func(n ast.Node) bool {
+			sw, ok := n.(*ast.SwitchStmt)
+			if !ok || sw.Tag == nil || fieldNumberRecv(sw.Tag) != mv {
+				return true
+			}
+			for _, st := range sw.Body.List {
+				cc := st.(*ast.CaseClause)
+				if len(cc.List) != 1 {
+					continue
+				}
+				bl, ok := cc.List[0].(*ast.BasicLit)
+				if !ok {
+					continue
+				}
+				for _, bs := range cc.Body {
+					as, ok := bs.(*ast.AssignStmt)
+					if !ok || len(as.Rhs) != 1 {
+						continue
+					}
+					if r, m, ok := isAccessorCall(as.Rhs[0]); ok && r == mv && m == "Iterator" {
+						it := render(as.Lhs[0])
+						kind := ""
+						for _, fn2 := range fnList {
+							f2 := fi.funcs[fn2]
+							for _, sc := range scopesWith(f2, it) {
+								if k := accumKind(sc, f2, it); k != "" {
+									kind = k
+								}
+							}
+							// through one call level
+							ast.Inspect(f2.Body, func(m ast.Node) bool {
+								c, ok := m.(*ast.CallExpr)
+								if !ok {
+									return true
+								}
+								var callee *ast.FuncDecl
+								if id, ok := c.Fun.(*ast.Ident); ok {
+									callee = fi.funcs[id.Name]
+								}
+								if callee == nil {
+									return true
+								}
+								for i, a := range c.Args {
+									if render(a) != it {
+										continue
+									}
+									k := 0
+									for _, p := range callee.Type.Params.List {
+										for _, pn := range p.Names {
+											if k == i {
+												if kk := accumKind(callee.Body, callee, pn.Name); kk != "" {
+													kind = kk
+												}
+											}
+											k++
+										}
+									}
+								}
+								return true
+							})
+						}
+						rows = append(rows, fmt.Sprintf("(%s, %s)", bl.Value, tr.CoqString(kind)))
+					}
+				}
+			}
+			return false
+		})
+		if len(rows) > 0 {
+			fmt.Fprintf(&b, "Definition accum_%s : list (Z * string) := [%s].\n", name, strings.Join(rows, "; "))
+		}
+	}
+	b.WriteString("Definition formulas : list (string * string * string) := [")
+	firstF := true
+	for _, fn := range fnList {
+		for _, f := range fi.formulas(fi.funcs[fn]) {
+			if !firstF {
+				b.WriteString(";")
+			}
+			firstF = false
+			fmt.Fprintf(&b, "\n  (%s, %s, %s)", tr.CoqString(fn), tr.CoqString(f[0]), tr.CoqString(f[1]))
+		}
+	}
+	b.WriteString("].\n\n")
 	// floating-point literals of decode_data.go (the coordinate factor)
 	var floats []string
 	ast.Inspect(file, func(n ast.Node) bool {
